@@ -217,6 +217,8 @@ func inCutset(c byte, cutset string) bool {
 //@ modifies everything
 //@ ensures one-value: result == nil ==> export.Encoder(enc).Tokens.Depth() == old(export.Encoder(enc).Tokens.Depth()) && export.Encoder(enc).Tokens.Last.Length() == old(export.Encoder(enc).Tokens.Last.Length())+1
 //@ at call prevMarshal#1 assert untouched: prevDepth == currDepth && prevLength == currLength
+//@ at call xe.Flags.Set#0 assert-before reset-is-barred: callArg0 == jsonflags.WithinArshalCall|1
+//@ at call xe.Flags.Set#1 assert-before reset-allowed-again: callArg0 == jsonflags.WithinArshalCall|0
 
 //@ extern funcvalue:prevUnmarshal(dec *jsontext.Decoder, va addressableValue, uo *jsonopts.Struct) (result error)
 //@ trusted ASSUMED: the next unmarshaler in the chain (reflection code, not under contract) reads exactly one value when it returns nil
@@ -235,6 +237,8 @@ func inCutset(c byte, cutset string) bool {
 //@ modifies everything
 //@ ensures one-value: result == nil ==> export.Decoder(dec).Tokens.Depth() == old(export.Decoder(dec).Tokens.Depth()) && export.Decoder(dec).Tokens.Last.Length() == old(export.Decoder(dec).Tokens.Last.Length())+1
 //@ at call prevUnmarshal#1 assert untouched: prevDepth == currDepth && prevLength == currLength
+//@ at call xd.Flags.Set#0 assert-before reset-is-barred: callArg0 == jsonflags.WithinArshalCall|1
+//@ at call xd.Flags.Set#1 assert-before reset-allowed-again: callArg0 == jsonflags.WithinArshalCall|0
 
 // MarshalToFunc / UnmarshalFromFunc wrappers: the same one-value policing
 // around a caller-supplied function; ErrUnsupported is forwarded (to the lookup
@@ -245,6 +249,9 @@ func inCutset(c byte, cutset string) bool {
 //@ property C17 C02 C20
 //@ requires enc != nil && mo != nil
 //@ modifies everything
+//@ at call xe.Flags.Set#0 assert-before reset-is-barred: callArg0 == jsonflags.WithinArshalCall|1
+//@ at call xe.Flags.Set#1 assert-before reset-allowed-again: callArg0 == jsonflags.WithinArshalCall|0
+//@ at return#0 assert forwarded-untouched: prevDepth == currDepth && prevLength == currLength
 //@ ensures one-value: result == nil ==> export.Encoder(enc).Tokens.Depth() == old(export.Encoder(enc).Tokens.Depth()) && export.Encoder(enc).Tokens.Last.Length() == old(export.Encoder(enc).Tokens.Last.Length())+1
 
 //@ func UnmarshalFromFunc$1
@@ -252,6 +259,9 @@ func inCutset(c byte, cutset string) bool {
 //@ property C17 C20
 //@ requires dec != nil && uo != nil
 //@ modifies everything
+//@ at call xd.Flags.Set#0 assert-before reset-is-barred: callArg0 == jsonflags.WithinArshalCall|1
+//@ at call xd.Flags.Set#1 assert-before reset-allowed-again: callArg0 == jsonflags.WithinArshalCall|0
+//@ at return#1 assert forwarded-untouched: prevDepth == currDepth && prevLength == currLength
 //@ ensures one-value: result == nil ==> export.Decoder(dec).Tokens.Depth() == old(export.Decoder(dec).Tokens.Depth()) && export.Decoder(dec).Tokens.Last.Length() == old(export.Decoder(dec).Tokens.Last.Length())+1
 
 // ---------------------------------------------------------------- intern.go
